@@ -317,6 +317,10 @@ def main():
     "tables before it) within a worker process")
   from vlib.pysym import runner
   runner.run_property(rep, "contracts.C10_refs", bounded=False)
+  # the reverse index of a reference column against its abstract view, and the invariant that ties
+  # it to the column's data (ReferenceRelation.* / BaseReferenceColumn.set /
+  # get_updates_for_removed_target_rows): proved for all data, all writes
+  runner.run_property(rep, "contracts.C10_relation", bounded=False)
   d = tempfile.mkdtemp(prefix="c10-count-")
   os.environ["C10_COUNT_DIR"] = d
   tot = {"steps": 0, "steps_removing": 0, "distinct": 0}
